@@ -89,6 +89,7 @@ def check(rep, an, tier):
             F.forwards(rep, res, entry, {"lsq_linear"},
                        {"A": "self.A", "lb": "self.lb", "ub": "self.ub", "W": "self.W", "K": "self.K",
                         "baseline": "self.baseline", "batch_size": "batch_size", "B": "self.B" if internal else "B"})
+            F.wrapper_returns_solution(rep, res, entry, {"lsq_linear"}, ("X", "B")) if not internal else None
             F.solve_kwargs(rep, res, entry)
             F.flow_objective(rep, res, entry, {"self.A", "self.W", "self.K", "self.baseline", "self.B" if internal else "B"})
             F.flow_constraints(rep, res, entry, {"self.lb", "self.ub"})
